@@ -44,13 +44,19 @@ def cases(draw, tier):
     sub = draw(st.sampled_from(SUBS))
     nmax = 30 if tier == "quick" else 150
     n = draw(st.integers(1, 10)) if draw(st.integers(1, 4)) > 1 else draw(st.integers(1, nmax))
-    kind = draw(st.sampled_from(["real_pairs", "complex", "normal", "real_spd_like", "normal_wide"]))
+    kind = draw(st.sampled_from(["real_pairs", "complex", "normal", "real_spd_like", "normal_wide", "shifted"]))
     nrhs = draw(st.sampled_from([0, 0, 1, 2, 3]))
     g = draw(st.integers(1, n))
     case = {"sub": sub, "n": n, "kind": kind, "seed": draw(st.integers(0, 10**6)), "nrhs": nrhs,
             "rhs": draw(st.sampled_from(["generic", "generic", "grade"])), "g": g,
             "x0": draw(st.sampled_from(["zero", "drawn", "none"])), "m": draw(st.integers(1, n + 5)),
             "tol_exp": draw(st.sampled_from([-12, -10, -8, -6])), "crhs": draw(st.integers(1, 6)) == 1}
+    if kind == "shifted":
+        # c I + N with c = 1e4 / 1e5 times the size of N: perfectly conditioned, every Rayleigh quotient is ~c
+        case["tol_exp"] = draw(st.sampled_from([-3, -4, -6]))
+        case["shift"] = draw(st.sampled_from([1e4, 1e5, -1e4]))
+        if sub in ("chain", "zero_residual"):
+            case["sub"] = sub = "minimal"
     if kind == "normal_wide":
         # a normal operator with condition number 1e3 and a loose (but legal) tolerance: still the residual minimiser
         case["tol_exp"] = draw(st.sampled_from([-3, -4, -6]))
@@ -92,7 +98,12 @@ def build(case):
     rng = np.random.default_rng(seed)
     kind = case["kind"]
     cplx = kind == "complex"
-    if kind == "real_pairs":
+    if kind == "shifted":
+        N = rng.standard_normal((n, n)) / np.sqrt(max(n, 1))
+        A = case["shift"] * np.eye(n) + N
+        X = np.eye(n)
+        cplx = False
+    elif kind == "real_pairs":
         # eigenvalues: conjugate pairs a +- bi with a>0 plus real ones; built as real block-diagonal similarity
         lam_blocks = []
         D = np.zeros((n, n))
@@ -367,6 +378,22 @@ def check(case, out):
     if sub == "via_inv":
         op = KR.counting_operator(A)
         alg = cola.linalg.GMRES(max_iters=n + 2, tol=tol)
+        B2 = (B[:, ::-1] * 0.5 + 1.0) if B.ndim == 2 else None
+        if B.ndim == 2 and not (tol >= 1e-6 and any(tolerance_active(A, bb[:, j], n + 2, tol) for bb in (B, B2) for j in range(B.shape[1]))):
+            # one inverse object, one right-hand-side buffer: solve, refill the buffer in place, solve again
+            def refill():
+                Ainv = cola.linalg.inv(KR.counting_operator(A), alg)
+                buf = B.copy()
+                np.asarray(Ainv @ buf)
+                buf[...] = B2
+                y2 = np.asarray(Ainv @ buf)
+                for xj, bj in zip(cols(y2), cols(buf)):
+                    r = np.linalg.norm(bj - A @ xj)
+                    if not np.isfinite(r) or r > slack(xj, bj) + 1e-6 * np.linalg.norm(bj):
+                        out.fail(sub, "gmres:inv:refilled_rhs" + (":small_scale" if site.endswith(":small_scale") else ""), "residual",
+                                 f"second product with the refilled buffer: |r|/|b| = {r / np.linalg.norm(bj):.3e}")
+                        return
+            call(refill)
         for nm, fn in (("inv", lambda: cola.linalg.inv(op, alg) @ B), ("solve", lambda: cola.linalg.solve(op, B, alg))):
             y = call(fn)
             if y is None:
